@@ -98,6 +98,7 @@ func c19(c *core.Check) {
 	c19Ranges(c)
 	c19Copy(c)
 	c19RangeAuto(c)
+	c19PadCharacters(c)
 	r10 := c.Rule("R10", "decimal is the last resort for every integer: the automatic range used for decimal (numeric system) has the smallest and the largest integer as constant bounds, so no integer is refused by it", 2)
 	autoRangeRule(c, r10)
 	r11 := c.Rule("R11", "a fallback renders the same integer: every restart of renderValue with another style (fallback, decimal) passes on the parameter counterValue itself, never the absolute value taken for the systems that write the sign apart", 12)
@@ -904,4 +905,62 @@ func c19RangeAuto(c *core.Check) {
 		pos = p.Pos(at)
 	}
 	r.Cond(setsAuto, "css/validation.rangeD | auto sets the Auto flag", pos, "Auto = true stored on the auto branch", "the auto branch stores no Auto flag: an explicit `range: auto` looks absent and an extending style takes the range of the style it extends (`big-roman` extending lower-roman with range: auto renders 4000 as 4000 instead of mmmm)")
+}
+
+// c19PadCharacters: the pad length counts characters.  In renderValue the quantity compared with the pad length is
+// built from the representation and from the sign's prefix and suffix: each of them is measured in characters
+// (utf8.RuneCountInString), never with len, which counts bytes ("٠٥" is two characters and four bytes).
+func c19PadCharacters(c *core.Check) {
+	p := c.Prog
+	r := c.Rule("R13", "the pad length counts characters: in renderValue no byte length of a string (builtin len) enters the number of pad symbols added; the representation, the negative prefix and the suffix are measured with utf8.RuneCountInString", 3)
+	fn := p.Method("css/counters", "CounterStyle", "renderValue")
+	if fn == nil {
+		r.Anchor("css/counters.CounterStyle.renderValue")
+		return
+	}
+	// the count handed to strings.Repeat
+	var count ssa.Value
+	core.Instrs(fn, func(in ssa.Instruction) {
+		if call, ok := in.(*ssa.Call); ok && call.Call.StaticCallee() != nil && call.Call.StaticCallee().String() == "strings.Repeat" {
+			count = call.Call.Args[1]
+		}
+	})
+	if count == nil {
+		r.Anchor("renderValue: strings.Repeat(pad symbol, n)")
+		return
+	}
+	n := 0
+	seen := map[ssa.Value]bool{}
+	var walk func(v ssa.Value)
+	walk = func(v ssa.Value) {
+		if seen[v] {
+			return
+		}
+		seen[v] = true
+		switch x := v.(type) {
+		case *ssa.Phi:
+			for _, e := range x.Edges {
+				walk(e)
+			}
+		case *ssa.BinOp:
+			walk(x.X)
+			walk(x.Y)
+		case *ssa.Call:
+			if b, ok := x.Call.Value.(*ssa.Builtin); ok && b.Name() == "len" {
+				if bt, isB := x.Call.Args[0].Type().Underlying().(*types.Basic); isB && bt.Info()&types.IsString != 0 {
+					n++
+					r.Fail("css/counters.renderValue | "+p.StmtTextAt(fn, x.Pos())+" | byte length", p.Pos(x.Pos()), "the byte length of a string enters the number of pad symbols: a representation in a non-ASCII script is padded too little (`pad: 3 '٠'` renders 5 as ٠٥ instead of ٠٠٥)")
+				}
+				return
+			}
+			if cal := x.Call.StaticCallee(); cal != nil && cal.String() == "unicode/utf8.RuneCountInString" {
+				n++
+				r.OK("css/counters.renderValue | "+p.StmtTextAt(fn, x.Pos())+" | characters", p.Pos(x.Pos()), "measured in characters")
+			}
+		}
+	}
+	walk(count)
+	if n == 0 {
+		r.Anchor("renderValue: the lengths subtracted from the pad length")
+	}
 }
